@@ -104,10 +104,19 @@ func c15GenName(r *RNG) []byte {
 	}
 }
 
-// c15GenPw draws a password AS SENT (obfuscated bytes): 0..20 bytes, none of them 0x00 (bcrypt
-// repeats the key cyclically with a NUL terminator, so `verify (hash p) q <-> p = q` is only
-// assumed for NUL-free p, q), which also keeps it different from the one-zero-byte marker.
+// c15GenPw draws a password AS SENT (obfuscated bytes): 0..20 bytes.  bcrypt reads the
+// NUL-terminated key cyclically, so `verify (hash p) q <-> p = q` is only assumed for the shapes
+// generated here: no 0x00 byte at all, or (15 %) a single leading 0x00 followed by 1..4 non-zero
+// bytes (clear text starting with 0xFF) — these never share a bcrypt key with each other, with ""
+// or with the one-zero-byte "unchanged" marker, but they START like the marker.
 func c15GenPw(r *RNG) []byte {
+	if r.Chance(15) {
+		b := []byte{0}
+		for i := 0; i < 1+r.Intn(4); i++ {
+			b = append(b, byte(1+r.Intn(255)))
+		}
+		return b
+	}
 	n := r.Pick(0, 1, 1, 2, 3, 5, 8, 20)
 	b := make([]byte, n)
 	for i := range b {
@@ -374,58 +383,65 @@ func (h *c15Run) check(step int) {
 
 	mem, disk, load, problems := h.views()
 	// ---- direct monitor: the views agree with each other
-	bad := func(what string) {
+	// bad reports a disagreement between the views under a key naming the clause; in the long-logins
+	// family disagreements about a long login keep that family's key.
+	badK := func(key, login, what string) {
 		c.Note("step", step)
 		c.Note("history", strings.Join(h.toks, " "))
-		c.Violation(h.key, what)
+		if h.key == "rename-long-login-mem-disk-diverge" && len(login) > 200 {
+			key = h.key
+		}
+		c.Violation(key, what)
 	}
 	for _, p := range problems {
-		bad(p)
+		badK("accounts-dir-unloadable", "", p)
 	}
 	for l, v := range mem {
 		if v.login != l {
-			bad(fmt.Sprintf("memory holds login %q under key %q", v.login, l))
+			badK("memory-key-differs-from-login", l, fmt.Sprintf("memory holds login %q under key %q", v.login, l))
 		}
 		d, ok := disk[l+".yaml"]
 		if !ok {
-			bad(fmt.Sprintf("login %q is in memory but has no file %q", l, l+".yaml"))
+			badK("memory-without-file", l, fmt.Sprintf("login %q is in memory but has no file %q", l, l+".yaml"))
+		} else if d.login != v.login {
+			badK("file-holds-other-login", l, fmt.Sprintf("file %q says Login: %q but memory holds it as %q (a restart loads it under the login inside the file)", l+".yaml", d.login, v.login))
 		} else if d != v {
-			bad(fmt.Sprintf("login %q: file content differs from memory", l))
+			badK("file-content-differs-from-memory", l, fmt.Sprintf("login %q: file content (name / privileges / password hash) differs from memory", l))
 		}
 		if lv, ok := load[l]; !ok || lv != v {
-			bad(fmt.Sprintf("login %q is in memory but a restart does not reproduce it", l))
+			badK("restart-differs", l, fmt.Sprintf("login %q is in memory but a restart does not reproduce it", l))
 		}
 		li, ok := listed[l]
 		if !ok {
-			bad(fmt.Sprintf("login %q can be looked up but is not in the list-users reply", l))
+			badK("list-users-differs", l, fmt.Sprintf("login %q can be looked up but is not in the list-users reply", l))
 		} else if li.name != v.name || li.access != v.access || li.hasPw == h.hasEmptyPw(v.hash) {
-			bad(fmt.Sprintf("login %q: list-users shows other name/privileges/password flag than memory", l))
+			badK("list-users-differs", l, fmt.Sprintf("login %q: list-users shows other name/privileges/password flag than memory", l))
 		}
 		if !strings.HasPrefix(v.hash, "$2a$") || len(v.hash) != 60 {
-			bad(fmt.Sprintf("login %q: stored password is not a bcrypt hash", l))
+			badK("password-not-hashed", l, fmt.Sprintf("login %q: stored password is not a bcrypt hash", l))
 		}
 		for _, pw := range h.pws[l] {
 			if v.hash == string(pw) || v.hash == string(obf(pw)) || (len(pw) >= 6 && (strings.Contains(v.hash, string(pw)) || strings.Contains(v.hash, string(obf(pw))))) {
-				bad(fmt.Sprintf("login %q: stored password field contains the password", l))
+				badK("password-not-hashed", l, fmt.Sprintf("login %q: stored password field contains the password", l))
 			}
 		}
 	}
 	for f, d := range disk {
-		if f != d.login+".yaml" {
-			bad(fmt.Sprintf("file %q holds login %q", f, d.login))
+		if _, inMem := mem[strings.TrimSuffix(f, ".yaml")]; f != d.login+".yaml" && !inMem {
+			badK("file-holds-other-login", d.login, fmt.Sprintf("file %q holds login %q", f, d.login))
 		}
 		if _, ok := mem[d.login]; !ok {
-			bad(fmt.Sprintf("file %q (login %q) has no account in memory", f, d.login))
+			badK("file-without-memory", d.login, fmt.Sprintf("file %q (login %q) has no account in memory", f, d.login))
 		}
 	}
 	for l := range load {
 		if _, ok := mem[l]; !ok {
-			bad(fmt.Sprintf("a restart would bring back login %q which is not in memory", l))
+			badK("restart-differs", l, fmt.Sprintf("a restart would bring back login %q which is not in memory", l))
 		}
 	}
 	for l := range listed {
 		if _, ok := mem[l]; !ok {
-			bad(fmt.Sprintf("list-users shows login %q which cannot be looked up", l))
+			badK("list-users-differs", l, fmt.Sprintf("list-users shows login %q which cannot be looked up", l))
 		}
 	}
 	// ---- view 1: login attempts for every login ever used, old and new passwords
@@ -436,10 +452,10 @@ func (h *c15Run) check(step int) {
 			h.obs("I "+hx(l)+" "+hx(pw), fmt.Sprintf("step %d login %s pw %s", step, hx(l), hx(pw)), map[bool]string{true: "auth 1", false: "auth 0"}[got])
 			v, inMem := mem[string(l)]
 			if got && !inMem {
-				bad(fmt.Sprintf("login %q authenticates but is not listed", l))
+				badK("login-differs", string(l), fmt.Sprintf("login %q authenticates but is not listed", l))
 			}
 			if inMem && got != h.verifies(v.hash, pw) {
-				bad(fmt.Sprintf("login %q: Authenticate disagrees with the stored hash", l))
+				badK("login-differs", string(l), fmt.Sprintf("login %q: Authenticate disagrees with the stored hash", l))
 			}
 			if got {
 				h.hashPw[v.hash] = hx(pw)
